@@ -139,6 +139,20 @@ func Pool() []Block {
 		{Name: "M_nest", Kind: "macro", Defines: []string{"macro:@outer"}, Needs: []string{"macro:@resp"}, Nodes: one(func() *Node {
 			return N("MACRO", "@outer").WithParen().WithKids(N("200", "any"), N("PASTE", "@resp"))
 		})},
+		// not parenthesised on purpose: a URL block whose context is left by climbing out of its
+		// children, directly followed by a method with its own path (which must not join the block)
+		{Name: "H_impl", Kind: "http", Defines: []string{"path:/impl"}, Needs: []string{"tag:@g"}, Nodes: func() []*Node {
+			return []*Node{
+				N("URL", "/impl").WithKids(N("Tags", "@g"), N("GET").WithKids(N("200", "any"))),
+				N("POST", "/impl/sub").WithKids(N("200", "any")),
+			}
+		}},
+		{Name: "R_impl", Kind: "rpc", Defines: []string{"path:/rimpl", "path:/rimpl2"}, Nodes: func() []*Node {
+			return []*Node{
+				N("URL", "/rimpl").WithKids(N("Protocol", "json-rpc-2.0"), N("Method", "q").WithKids(N("Params").WithBody("[1]"))),
+				N("GET", "/rimpl2/x").WithKids(N("200", "any")),
+			}
+		}},
 		{Name: "H_paste2", Kind: "http", Defines: []string{"path:/pst2"}, Needs: []string{"macro:@outer"}, Nodes: one(func() *Node {
 			return N("URL", "/pst2").WithParen().WithKids(N("POST").WithKids(N("Request", "any"), N("PASTE", "@outer")))
 		})},
